@@ -956,6 +956,7 @@ BRANCH_BAD_CHILD = z3.Function("Branch.bad.child", IntS, BoolS, IntS)   # witnes
 
 def register_branching(reg):
     register_slot_flags(reg)
+    register_class_markers(reg)
     register_validate_composition(reg)
     register_composition_connect(reg)
     TG = lambda ctx, x: ctx.get(x, "_targets")
@@ -1048,6 +1049,35 @@ def register_branching(reg):
 # =================================================================================================
 # needs_push / needs_pull of every slot class (C19.0): the flags the dead-link rule reads
 # =================================================================================================
+def register_class_markers(reg):
+    """The scheduler and the validation read three marker base classes of adapters.  What they must mean (DESIGN 3, Req):
+      NoDependencyAdapter  - requests through the adapter never need the source to be ahead: only an adapter that serves what was
+                             already pushed qualifies (DelayToPush: with_delay(t) = min(t, last push), C13.1);
+      NoBranchAdapter      - the adapter keeps state for a single end consumer (buffer evicted on pull: TimeCachingAdapter family;
+                             request history: DelayToPull), so fan-out below it is refused (C19.3);
+      ITimeDelayAdapter    - the adapter shifts request times (it defines with_delay).
+    One unit per finam adapter class checks the class table of the real source against this (the `isa` facts every other proof uses)."""
+    repo = getattr(reg, "repo", None)
+    if repo is None:
+        return
+    ad = repo.cls("Adapter")
+    tca, tda = repo.cls("TimeCachingAdapter"), repo.cls("TimeDelayAdapter")
+    markers = {"NoDependencyAdapter": repo.cls("NoDependencyAdapter"), "NoBranchAdapter": repo.cls("NoBranchAdapter"), "ITimeDelayAdapter": repo.cls("ITimeDelayAdapter")}
+    for ci in sorted(repo.classes.values(), key=lambda c: c.name):
+        if ad not in ci.mro or ci is ad:
+            continue
+        want = {
+            "NoDependencyAdapter": ci.name == "DelayToPush",
+            "NoBranchAdapter": tca in ci.mro or ci.name == "DelayToPull",
+            "ITimeDelayAdapter": tda in ci.mro,
+        }
+        have = {k: (m in ci.mro) for k, m in markers.items()}
+        for k in sorted(want):
+            reg.facts.append((f"markers<{ci.name}>:{k}", ["C01.0", "C02.0", "C04.0", "C13.0", "C19.0"], have[k] == want[k],
+                              f"class {ci.name} ({ci.module.path}): {k} {'must' if want[k] else 'must not'} be a base class "
+                              f"({'is' if have[k] else 'is not'} one)"))
+
+
 def register_slot_flags(reg):
     """One unit per finam class that is an input, output or adapter: the property the class resolves to returns the
     flag its behaviour demands.  The expectation is derived from the class table of the real source:
@@ -1078,6 +1108,12 @@ def register_slot_flags(reg):
             su = repo.lookup_method(ci, "source_updated")
             push = su is not None and su.cls is not inp
             pull = not push
+        fi = repo.lookup_method(ci, "is_static")
+        if fi is not None and "abstractmethod" not in fi.decorators:
+            # the static flag a slot reports is the one it was constructed with; adapters are never static
+            reg.add(Contract(fi.qual, self_cls=ci.name, props=["C19.0", "C20.1"], params={}, result=Bool, pure=True, modifies=lambda ctx: [],
+                             ensures=(lambda ctx, r: r.e == z3.BoolVal(False)) if is_adapter else (lambda ctx, r: r.e == ctx.get(ctx.self, "_static").e),
+                             name=f"is_static<{ci.name}>", primary=False))
         for attr, want in (("needs_push", push), ("needs_pull", pull)):
             fi = repo.lookup_method(ci, attr)
             if fi is None or "abstractmethod" in fi.decorators:
